@@ -52,7 +52,13 @@ RULE = (
     "the standard functions x require_same_type x {same type, subclass payload, other type, foreign object, the IDENTICAL "
     "wrapper object on both sides} x 3-5 value pairs, the diagonal (x op x) for each of 10 eq relations -- non-reflexive "
     "ones included -- x 6 sets of ordering functions, then random assignments of 10 relations (incl. constant, NotImplemented-returning and raising functions) to the "
-    "supplied slots (thorough: every single-slot deviation). Every supplied callable is instrumented: cmp functions record "
+    "supplied slots (thorough: every single-slot deviation). Histories of cmp_using calls: in half of the random cases and in a dedicated block (32 subsets x "
+    "require_same_type x mismatched payloads x 3 histories) 1-3 OTHER cmp_using classes are built from the very same "
+    "function objects (all, or all but one) with the opposite/same require_same_type before and/or after the class under "
+    "test, some of them used -- harness-only: the model knows only the class under test, so any influence shows. Every "
+    "callable role (converter functions, Converter's function, pipe members, factories, Factory(...) arguments, cmp "
+    "functions, default_if_none's factory in the argument check) is filled by a plain function, or by a valid callable "
+    "object that is falsy (__bool__ False) or empty (__len__() == 0). Every supplied callable is instrumented: cmp functions record "
     "each call with the identity of the payload objects they receive (observed per method and per operator, derived ones "
     "included), come in a total and in a partial flavour (raise on payloads of different classes) and raise one of 7 "
     "exception classes (Exception, KeyError, StopIteration, TypeError, AttributeError, ValueError, a BaseException "
